@@ -83,6 +83,12 @@ CHECKS['C10'] = dict(
     note='exhaustive over the 82 bundled directories; signatures come from inspect, argument lists from the real Definitions; wowp 0_3_3 (no controller) is a known finding.',
     design='§5 C10')
 
+CHECKS['C19'] = dict(
+    technique='Lean 4 theorems about the packaging rule (segMatch_star_suffix, shipped_complete_iff, package_has_init, module_of_package_shipped) + the model evaluated on the file listing of the working tree vs a real offline wheel build + replays parsed from the unpacked wheel',
+    text='The packaging model (find_packages over __init__.py chains, package_data glob semantics, scripts) decides which files a build ships and which needed files (Python modules, definition files, CLI script) are missing; theorems give the glob/package rules and completeness as a decision. On every run the model is evaluated by the compiled driver on the listing of the working tree (about 6,600 files), a real wheel is built offline in a scratch copy and must ship exactly the model\'s set, and recordings plus one synthetic battle per bundled version are parsed from the unpacked wheel with the checkout off the path, digests compared with the checkout\'s.',
+    note='partial: setuptools / pip are external (model compared with a real build each run); sdist not built in the quick tier; the hypotheses are evaluated on the extracted listing by compiled code, not by the kernel.',
+    design='§5 C19')
+
 PENDING_REASON = 'check not built yet in this revision (planned: see DESIGN.md §5); not claimed until its theorem + correspondence run on the unchanged tree'
 
 
